@@ -162,4 +162,23 @@ example :
     (ctlNext c i).isRinging = false ∧ (ctlNext { c with rowNumber := 6 } i).isRinging = true ∧
     (ctlNext (ctlNext { c with rowNumber := 6 } i) i).isRinging = false := by decide
 
+
+
+/-- **A switch is not a call**: no setting (handbell style, up-down-in, calling on / off, or anything passed
+on to the rhythm) touches the stand flag, the ringing flags or the counters - in particular switching
+handbell style off does not cancel a Stand next. -/
+theorem setting_keeps_stand (b : Bot) (key : String) (v : SVal) :
+    (b.onSetting key v).1.shouldStand = b.shouldStand ∧ (b.onSetting key v).1.isRinging = b.isRinging ∧
+    (b.onSetting key v).1.rowsLeftBeforeRounds = b.rowsLeftBeforeRounds ∧
+    (b.onSetting key v).1.roundsLeft = b.roundsLeft ∧ (b.onSetting key v).1.ringingRounds = b.ringingRounds ∧
+    (b.onSetting key v).1.ringingOpening = b.ringingOpening := by
+  unfold Bot.onSetting
+  split
+  · cases toBool? v <;> exact ⟨rfl, rfl, rfl, rfl, rfl, rfl⟩
+  · split
+    · cases toBool? v <;> exact ⟨rfl, rfl, rfl, rfl, rfl, rfl⟩
+    · split
+      · cases toBool? v <;> exact ⟨rfl, rfl, rfl, rfl, rfl, rfl⟩
+      · exact ⟨rfl, rfl, rfl, rfl, rfl, rfl⟩
+
 end Wheatley.C07
